@@ -571,11 +571,14 @@ def nested_case(case):
             log.append((self.id, len(removed) > 0))
 
     removed = []
+    stepped = []
 
     class Remover(Rec):
         def execute(self):
             super().execute()
-            if self.model.systems.timestep == case['t'] and not removed:
+            late = case.get('when') == 'outer_after'
+            if not removed and ((not late and self.model.systems.timestep == case['t']) or
+                                (late and self.model.systems.timestep >= case['t'] and depth[0] == 0 and stepped)):
                 self.model.systems.remove_system('victim')
                 removed.append(True)
 
@@ -586,18 +589,21 @@ def nested_case(case):
                 depth[0] += 1
                 self.model.execute(case['inner'])
                 depth[0] -= 1
+                stepped.append(True)
     order = {'remover_first': [('remover', Remover, 5), ('stepper', Stepper, 4)],
              'stepper_first': [('stepper', Stepper, 5), ('remover', Remover, 4)]}[case['order']]
     for sid, cls, prio in order:
         model.systems.add_system(cls(sid, model, priority=prio))
     model.systems.add_system(Rec('victim', model, priority=case['victim_prio']))
+    model.systems.add_system(Rec('mid', model, priority=-1))
     model.systems.add_system(Rec('tail', model, priority=-9))
     for _ in range(case['t'] + 2):
         model.execute()
-    tail_runs = sum(1 for e in log if e[0] == 'tail')
-    if tail_runs != model.timestep:
-        raise Violation(f'a system that stays registered throughout (lowest priority) did not run once per step of the model '
-                        f'- outer and nested steps alike ({case})', expected=model.timestep, observed=tail_runs)
+    for who in ('mid', 'tail'):
+        runs = sum(1 for e in log if e[0] == who)
+        if runs != model.timestep:
+            raise Violation(f'system {who}, registered throughout behind the acting systems, did not run once per step of the '
+                            f'model - outer and nested steps alike ({case})', expected=model.timestep, observed=runs)
     bad = [e for e in log if e == ('victim', True)]
     if bad:
         raise Violation(f'a system removed during timestep {case["t"]} ran afterwards (another system advanced the model from '
@@ -611,6 +617,8 @@ def nested_cases():
             for inner in (1, 2):
                 for vp in (6, 3, 0):
                     yield {'leg': 'nested', 'order': order, 't': t, 'inner': inner, 'victim_prio': vp}
+                    if order == 'stepper_first':
+                        yield {'leg': 'nested', 'order': order, 't': t, 'inner': inner, 'victim_prio': vp, 'when': 'outer_after'}
 
 
 def run(ctx):
